@@ -9,8 +9,13 @@ from ..core import Ctx, coq_eval_shards, pmap, proof_step, tmap
 
 def gen_prog(rng, i):
     opts = {"p_noncanon": 0.35, "p_same": 0.15, "p_missing": 0.3, "parens": (i % 5 == 4), "comments": True, "maxdepth": 3}
-    prog = proggen.gen_program(rng, rich=(i % 2 == 0), style="assert", nsites=rng.randint(1, 6), opts=opts,
-                               layout={"per_test": rng.choice([1, 2, 3, 6])})
+    from .. import valgen
+    valgen.DUPKEYS[0] = 0.2 if i % 3 == 0 else 0.0      # previous content "whatever it was": dict displays that repeat a key
+    try:
+        prog = proggen.gen_program(rng, rich=(i % 2 == 0), style="assert", nsites=rng.randint(1, 6), opts=opts,
+                                   layout={"per_test": rng.choice([1, 2, 3, 6])})
+    finally:
+        valgen.DUPKEYS[0] = 0.0
     prog["opts"] = opts
     return prog
 
@@ -41,6 +46,31 @@ def judge(prog, o):
         return f"after create+fix the test {bad[0][0]} still fails with inline-snapshot disabled: {bad[0][1]}"
     if o["first_raised"]:
         return f"with create+fix approved the test {o['first_raised'][0][0]} did not run to its end: {o['first_raised'][0][1]}"
+    return None
+
+
+def dup_key_getitem(source):
+    """F-39: a snapshot used with [key] whose dict display repeats a (constant) key"""
+    import ast
+    try:
+        tree = ast.parse(source)
+    except SyntaxError:
+        return False
+    subscripted = {n.value.id for n in ast.walk(tree) if isinstance(n, ast.Subscript) and isinstance(n.value, ast.Name)}
+    for n in ast.walk(tree):
+        if isinstance(n, ast.Assign) and isinstance(n.value, ast.Call) and isinstance(n.value.func, ast.Name) and n.value.func.id == "snapshot" and n.value.args:
+            arg = n.value.args[0]
+            names = {t.id for t in n.targets if isinstance(t, ast.Name)}
+            if isinstance(arg, ast.Dict) and names & subscripted:
+                keys = [ast.dump(k) for k in arg.keys if k is not None]
+                if len(keys) != len(set(keys)):
+                    return True
+    return False
+
+
+def classify(prog, o, why):
+    if why and "still fails" in why and dup_key_getitem(prog["source"]):
+        return "F-39"
     return None
 
 
@@ -109,7 +139,7 @@ def run(ctx: Ctx):
             ctx.dist("B.kind=" + s["kind"] + ("/missing" if s["old"] is None else ""))
         why = judge(p, o)
         if why:
-            ctx.report("C02 oracle: " + why, {"kind": "prog", "source": p["source"], "after": o.get("after")})
+            ctx.report("C02 oracle: " + why, {"kind": "prog", "source": p["source"], "after": o.get("after")}, tag=classify(p, o, why))
     ctx.coverage["oracle"]["programs"] = m
     ctx.sample({"program": progs[0]["source"][-600:], "after": res[0].get("after", "")[-600:]})
     # real sessions
